@@ -203,6 +203,32 @@ def build (c : Config) : Except Err State :=
     addFiles c.chosen.isNone ((decodedSets c.allRegs ++ enc).flatten)
       { serviceNames := c.chosen.getD [], files := [], symbols := [] }
 
+/-- The files of one registration (`encoded none`: nothing could be decoded). -/
+def Reg.files : Reg → List File
+  | .decoded fs => fs
+  | .encoded (some fs) => fs
+  | .encoded none => []
+
+def Reg.isDecoded : Reg → Bool
+  | .decoded _ => true
+  | .encoded _ => false
+
+/-- Every registered descriptor in the order of the builder calls (own descriptor last). -/
+def Config.files (c : Config) : List File := (c.allRegs.map Reg.files).flatten
+
+/-- The same descriptors in the order `ReflectionServiceState::new` examines them: decoded
+registrations first, then encoded ones. -/
+def Config.procFiles (c : Config) : List File :=
+  ((c.allRegs.filter Reg.isDecoded).map Reg.files).flatten
+    ++ ((c.allRegs.filter (fun r => !r.isDecoded)).map Reg.files).flatten
+
+def Reg.decodable : Reg → Bool
+  | .encoded none => false
+  | _ => true
+
+/-- No registered byte string is rejected by prost. -/
+def Config.decodable (c : Config) : Bool := c.allRegs.all Reg.decodable
+
 /-! ### Look-ups and the request loop -/
 
 /-- `MessageRequest` (with the string/record payload that matters). -/
